@@ -249,7 +249,14 @@ func (g *Gen) applyContract(fc *FuncContract, names []string, args []TV, cc *ssa
 		}
 	}
 	if res == nil {
-		for _, t := range rts {
+		for i, t := range rts {
+			if fc.Fresh && i == 0 {
+				// a freshly allocated result is not an observation of an existing object
+				n := g.fresh("r_"+sym(label), g.sortOf(t))
+				g.assume(g.typeFacts(n, t))
+				res = append(res, n)
+				continue
+			}
 			res = append(res, g.freshOf("r_"+sym(label), t))
 		}
 	}
@@ -548,6 +555,9 @@ func (g *Gen) checkPost(res []string, pos token.Pos) {
 			name = fmtf("%s/post#%s@ret%d", g.fnLabel(), cl.Label, rn)
 		}
 		g.oblige("post", name, t, cl.Props, cl.Text, pos)
+		// later postconditions at this return may use earlier ones as lemmas (each is an
+		// obligation of its own, so nothing is assumed that is not also checked)
+		g.assume(t)
 	}
 	if g.fc.Fresh && len(res) > 0 {
 		// `fresh`: the (first) result is an object allocated by this call
